@@ -119,7 +119,7 @@ def C02(ctx):
     more = [c for c in more if verdict(c) == 'yes']
     if ctx.quick:
         more = ctx.sample(more, 500)
-    more += ctx.export('FamilyX(p, {"multi-name-var-sets", "arg-returned-through-bind", "arg-returned-directly", "two-files-ok", "star-foreign-tag-ok", "two-unnamed-values", "struct-fields-from-params-crossed"})')
+    more += ctx.export('FamilyX(p, {"multi-name-var-sets", "arg-returned-through-bind", "arg-returned-directly", "two-files-ok", "star-foreign-tag-ok", "two-unnamed-values", "struct-fields-from-params-crossed", "variadic-err-provider", "bind-three-sets-deep", "bind-to-field-type", "value-in-shared-set"})')
     # providers of a package named like the injector's own package / like names the generator invents: the call must still reach them
     more += ctx.export('FamilyNOne(p, "pkg:b", {"@same", "err", "t1", "cleanup"})', extends='WireNames')
     ctx.design_inject(cases + more, maxcalls=2, label='families G R B S M X ')
